@@ -39,6 +39,10 @@ type Config struct {
 	KeepTests    []string // repo-relative dirs whose existing _test.go files are kept (default: removed in harness dirs)
 	Tags         string
 	Verbose      bool
+	// Virtual maps a virtual package directory (repo-relative, not on disk) to the
+	// repo-relative source files overlaid into it (used for leaf packages of nested
+	// modules that cannot be built in place offline).
+	Virtual map[string][]string
 }
 
 type listPkg struct {
@@ -109,8 +113,16 @@ func Build(cfg Config) (string, error) {
 		virt[vp] = h
 		ov.Replace[vp] = h.Src
 	}
+	for vd, files := range cfg.Virtual {
+		for _, f := range files {
+			ov.Replace[filepath.Join(repo, vd, filepath.Base(f))] = filepath.Join(repo, f)
+		}
+	}
 	for d := range harnessDirs {
 		if keep[d] {
+			continue
+		}
+		if _, isVirtual := cfg.Virtual[d]; isVirtual {
 			continue
 		}
 		ents, err := os.ReadDir(filepath.Join(repo, d))
